@@ -179,12 +179,25 @@ func (i *Interpreter) executeAssign(stmt AssignStatement, env *Environment) (int
 
 	// If variable exists in any scope (including parent), update it
 	// Otherwise, define a new variable in current scope
-	if env.Has(stmt.Target) {
+	if i.assignable(stmt.Target, env) {
 		env.Set(stmt.Target, value)
 	} else {
 		env.Define(stmt.Target, value)
 	}
 	return value, nil
+}
+
+// assignable reports whether an assignment made in env may update the existing
+// binding of name. The module-level scope is shared by every request served by
+// this interpreter: code that runs below it (a route, a function, a handler)
+// only updates bindings of its own scopes, and a `$ name = ...` that meets a
+// module-level name declares a local variable instead. Module-level code
+// itself runs in the global scope and updates it as before.
+func (i *Interpreter) assignable(name string, env *Environment) bool {
+	if env == i.globalEnv {
+		return env.Has(name)
+	}
+	return env.HasBelow(name, i.globalEnv)
 }
 
 // executeFieldAssign handles dot-notation field assignment like obj.field = value
@@ -197,6 +210,12 @@ func (i *Interpreter) executeFieldAssign(objName, fieldPath string, valueExpr Ex
 	obj, ok := objVal.(map[string]interface{})
 	if !ok {
 		return nil, fmt.Errorf("cannot assign to field of non-object variable '%s' (type %T)", objName, objVal)
+	}
+
+	// A module-level object is shared by every request: writing a field of it
+	// in place would change it for all of them
+	if env != i.globalEnv && !env.HasBelow(objName, i.globalEnv) {
+		return nil, fmt.Errorf("cannot assign to a field of module-level '%s'", objName)
 	}
 
 	value, err := i.EvaluateExpression(valueExpr, env)
@@ -245,8 +264,13 @@ func (i *Interpreter) executeReassign(stmt ReassignStatement, env *Environment) 
 		return nil, err
 	}
 
-	// Update the existing variable
-	env.Set(stmt.Target, value)
+	// Update the existing variable; a module-level name (a function, an import)
+	// is shared by every request and is shadowed in the current scope instead
+	if i.assignable(stmt.Target, env) {
+		env.Set(stmt.Target, value)
+	} else {
+		env.Define(stmt.Target, value)
+	}
 	return value, nil
 }
 
